@@ -500,7 +500,7 @@ fn pick_op(rng: &mut Rng) -> &'static str {
 }
 
 fn small_text(rng: &mut Rng) -> String {
-    rng.pick(&["x", "y", " ", "\n ", "ab", "", "z-", "--", "\u{a0}"]).to_string()
+    rng.pick(&["x", "y", " ", "\n ", "ab", "", "", "", "z-", "--", "\u{a0}", "]]", ">"]).to_string()
 }
 
 fn gen_value(rng: &mut Rng) -> GValue {
